@@ -609,4 +609,174 @@ theorem page_entries_stem_key_witness :
     rw [sortOn_of_sorted _ _ (by decide), sortOn_of_sorted _ _ (by decide)]
     decide
 
+/-! ## round 6: the colours of graph edges -/
+
+/-- Clause "regardless of string-hash randomisation" for the colours of the edges of a graph hop
+    (`coloured_edges`), as the tree is (switch probed on the real `FortranGraph.add_nodes` on every run): the
+    colour number of a node is its position in the *sorted* hop, so for every two iteration orders of the node set
+    (`n₁ ~ n₂`) and whatever the set hands out (`ω₁`, `ω₂`), every edge gets the same colour. -/
+theorem edge_colours_tree_deterministic (ω₁ ω₂ : List Node → List Node) (n₁ n₂ : List Node) (hp : n₁.Perm n₂)
+    (hid : (n₁.map (·.ident)).Nodup) : hopColoursTree ω₁ n₁ = hopColoursTree ω₂ n₂ := by
+  have h : Gen.C12.edgeColourBySortedIndex = true := by decide
+  simp only [hopColoursTree, hopColours, h, if_true]
+  rw [graph_nodes_tree_deterministic n₁ n₂ hp hid]
+
+/-- The emission order never depends on how the colours are numbered: with either rule the nodes of the hop come
+    out in the one sorted order (only the colour numbers can move). -/
+theorem edge_colours_emission_order (b : Bool) (ω : List Node → List Node) (nodes : List Node) :
+    (hopColours b ω nodes).map (·.1) = (emitNodesTree nodes).map (·.ident) := by
+  simp [hopColours, Function.comp_def]
+
+/-- What numbering by iteration order still guarantees: a hop with at most one node. -/
+theorem edge_colours_iteration_order_partial (ω₁ ω₂ : List Node → List Node) (nodes : List Node)
+    (h₁ : ∀ l, (ω₁ l).Perm l) (h₂ : ∀ l, (ω₂ l).Perm l) (hlen : nodes.length ≤ 1) :
+    hopColours false ω₁ nodes = hopColours false ω₂ nodes := by
+  match nodes, hlen with
+  | [], _ =>
+    have e₁ := (h₁ []).eq_nil
+    have e₂ := (h₂ []).eq_nil
+    simp [hopColours, e₁, e₂]
+  | [a], _ =>
+    have e₁ := List.perm_singleton.mp (h₁ [a])
+    have e₂ := List.perm_singleton.mp (h₂ [a])
+    simp [hopColours, e₁, e₂]
+
+/-- Numbering the nodes by enumerating the set: the two iteration orders of a two-node hop give every edge the
+    other colour; numbering the sorted list gives one colouring. -/
+theorem edge_colours_set_order_witness :
+    hopColours false id [⟨cs! "proc~assemble", cs! "assemble"⟩, ⟨cs! "proc~solve", cs! "solve"⟩]
+      ≠ hopColours false List.reverse [⟨cs! "proc~assemble", cs! "assemble"⟩, ⟨cs! "proc~solve", cs! "solve"⟩] ∧
+    hopColours true id [⟨cs! "proc~assemble", cs! "assemble"⟩, ⟨cs! "proc~solve", cs! "solve"⟩]
+      = hopColours true List.reverse [⟨cs! "proc~assemble", cs! "assemble"⟩, ⟨cs! "proc~solve", cs! "solve"⟩] := by
+  have h : Gen.C12.nodeLtByIdent = true := by decide
+  refine ⟨?_, by simp [hopColours]⟩
+  simp only [hopColours, emitNodesTree, emitNodesBy, h]
+  rw [sortOn_of_sorted _ _ (by decide)]
+  decide
+
+/-! ## round 6: source files reachable under more than one path -/
+
+/-- The model of round 5 is the `firstCome = false` instance on the paths of the file system. -/
+theorem find_sources_listed_eq_findSources (real : Path → Path) (srcDirs excl : List Path) (exts : List Str) (fs : FS) :
+    findSourcesListed false real srcDirs excl exts (fs.map (·.1)) = findSources srcDirs excl exts fs := by
+  simp [findSourcesListed, findSources]
+
+/-- Clause "regardless of ... the order in which the file system enumerates source files" for the *set* of source
+    files, as the tree is (switch probed on the real `find_all_files` over a directory with symbolic links,
+    enumerated in two orders, on every run): two enumeration orders of the same directory entries give the same
+    files (as a set: one a permutation of the other) - also when several paths lead to one file. -/
+theorem find_sources_enumeration_order_irrelevant_tree (real : Path → Path) (srcDirs excl : List Path) (exts : List Str)
+    (l₁ l₂ : List Path) (hp : l₁.Perm l₂) :
+    (findSourcesListedTree real srcDirs excl exts l₁).Perm (findSourcesListedTree real srcDirs excl exts l₂) := by
+  have h : Gen.C12.sourceAliasesFirstCome = false := by decide
+  simp only [findSourcesListedTree, findSourcesListed, h]
+  exact hp.filter _
+
+/-- ... and therefore the order in which the files are parsed (the sorted set) is one list for every enumeration
+    order of a directory without repeated entries. -/
+theorem parse_order_enumeration_irrelevant_tree (real : Path → Path) (srcDirs excl : List Path) (exts : List Str)
+    (key : Path → Str) (hkey : ∀ a b, key a = key b → a = b)
+    (l₁ l₂ : List Path) (hp : l₁.Perm l₂) :
+    sortOn key (findSourcesListedTree real srcDirs excl exts l₁) = sortOn key (findSourcesListedTree real srcDirs excl exts l₂) :=
+  sortOn_perm key _ _ (find_sources_enumeration_order_irrelevant_tree real srcDirs excl exts l₁ l₂ hp)
+    (fun a b _ _ hab => hkey a b hab)
+
+/-- Keeping the first path of every file is harmless exactly when no file has two paths: if `real` is injective on
+    the listing, nothing is dropped. -/
+theorem find_sources_first_come_partial (real : Path → Path) (seen l : List Path)
+    (hnd : (l.map real).Nodup) (hs : ∀ p ∈ l, real p ∉ seen) : dedupByReal real seen l = l := by
+  induction l generalizing seen with
+  | nil => simp [dedupByReal]
+  | cons p ps ih =>
+    have hp : seen.contains (real p) = false := by
+      simpa using hs p (by simp)
+    simp only [dedupByReal, hp]
+    simp only [List.map_cons, List.nodup_cons] at hnd
+    rw [ih (real p :: seen) hnd.2]
+    · simp
+    · intro q hq
+      simp only [List.mem_cons, not_or]
+      refine ⟨?_, hs q (by simp [hq])⟩
+      intro e
+      exact hnd.1 (e ▸ List.mem_map_of_mem hq)
+
+/-- First-come among the paths of one file: `compat/blas_axpy.f90` is a link to `legacy/axpy.f90`; listed in two
+    orders, two different files are documented.  With every path kept the two listings give the same set. -/
+theorem find_sources_first_come_order_witness :
+    let a : Path := [cs! "src", cs! "legacy", cs! "axpy.f90"]
+    let b : Path := [cs! "src", cs! "compat", cs! "blas_axpy.f90"]
+    let real : Path → Path := fun p => if p == b then a else p
+    findSourcesListed true real [[cs! "src"]] [] [cs! "f90"] [a, b] = [a] ∧
+    findSourcesListed true real [[cs! "src"]] [] [cs! "f90"] [b, a] = [b] ∧
+    findSourcesListed false real [[cs! "src"]] [] [cs! "f90"] [a, b] = [a, b] ∧
+    findSourcesListed false real [[cs! "src"]] [] [cs! "f90"] [b, a] = [b, a] := by
+  decide
+
+/-! ## round 6: `sort:` - the entity lists sorted by a key that leaves ties -/
+
+/-- Every value the `sort` option may take (keys of `SORT_KEY_FUNCTIONS`, regenerated from the source on every
+    run) is `src` or has its key function in the model. -/
+theorem sort_modes_all_modelled :
+    ∀ m ∈ Gen.C12.sortModes, m = cs! "src" ∨ (sortKeyFn m).isSome = true := by
+  decide
+
+/-- `sort: src` (the default) leaves every list in source order. -/
+theorem sort_components_src_identity (l : List Comp) : sortComponents (cs! "src") l = l := by
+  have h : sortKeyFn (lower (cs! "src")) = none := by decide
+  simp [sortComponents, h]
+
+/-- Sorting loses and invents nothing: the sorted list is a permutation of the source-order list. -/
+theorem sort_components_perm (mode : Str) (l : List Comp) : (sortComponents mode l).Perm l := by
+  unfold sortComponents
+  split
+  · exact sortOn_perm_self _ l
+  · exact List.Perm.refl l
+
+/-- ... and it is ordered by the key of the mode. -/
+theorem sort_components_ordered (mode : Str) (key : Comp → Str) (h : sortKeyFn (lower mode) = some key) (l : List Comp) :
+    (sortComponents mode l).Pairwise (fun a b => strLe (key a) (key b) = true) := by
+  simp only [sortComponents, h]
+  exact sortOn_sorted key l
+
+/-- The part of the clause "output is a function of the inputs" that a key with ties (`permission`, `type`: many
+    entities share a key) rests on: `list.sort` is stable, so the entities that share a key value `k` keep exactly
+    their source order - no other order (hash, enumeration) can enter through the ties.  For every mode, every
+    list, every key value. -/
+theorem sort_components_ties_keep_source_order (mode : Str) (key : Comp → Str) (h : sortKeyFn (lower mode) = some key)
+    (l : List Comp) (k : Str) :
+    (sortComponents mode l).filter (fun c => key c == k) = l.filter (fun c => key c == k) := by
+  simp only [sortComponents, h, sortOn]
+  have hsub : (l.filter (fun c => key c == k)).Sublist (l.mergeSort (fun a b => strLe (key a) (key b))) := by
+    apply List.sublist_mergeSort (le := fun a b => strLe (key a) (key b))
+      (fun a b c => strLe_trans _ _ _) (fun a b => strLe_total _ _)
+    · rw [List.pairwise_filter]
+      apply List.pairwise_of_forall
+      intro a b ha hb
+      simp only [beq_iff_eq] at ha hb
+      rw [ha, hb]; exact strLe_refl k
+    · exact List.filter_sublist
+  have h2 := hsub.filter (fun c => key c == k)
+  rw [List.filter_filter] at h2
+  simp only [Bool.and_self] at h2
+  exact (h2.eq_of_length (by
+    rw [← List.countP_eq_length_filter, ← List.countP_eq_length_filter]
+    exact ((List.mergeSort_perm l _).countP_eq _).symm)).symm
+
+/-- Why the lists handed to the sort must themselves be in a determined (source) order: two entities of equal
+    permission, given in two orders, come out in two orders under `sort: permission`. -/
+/- (the last conjunct: under `alpha` the names tell the two apart, and both orders give one list) -/
+theorem sort_components_input_order_witness :
+    let v : VarSig := ⟨cs! "integer", [], [], []⟩
+    let a : Comp := ⟨1, cs! "beta", cs! "variable", cs! "public", v, [], none⟩
+    let b : Comp := ⟨2, cs! "alpha", cs! "variable", cs! "public", v, [], none⟩
+    sortComponents (cs! "permission") [a, b] = [a, b] ∧ sortComponents (cs! "permission") [b, a] = [b, a] ∧
+    sortComponents (cs! "alpha") [a, b] = sortComponents (cs! "alpha") [b, a] := by
+  have hp : sortKeyFn (lower (cs! "permission")) = some (fun c => showNat (permRank c.permission)) := by rfl
+  have ha : sortKeyFn (lower (cs! "alpha")) = some (·.name) := by rfl
+  refine ⟨?_, ?_, ?_⟩
+  · simp only [sortComponents, hp]; exact sortOn_of_sorted _ _ (by decide)
+  · simp only [sortComponents, hp]; exact sortOn_of_sorted _ _ (by decide)
+  · simp only [sortComponents, ha]
+    exact sortOn_perm_of_nodup _ _ _ (List.Perm.swap _ _ _) (by decide)
+
 end Ford.C12
